@@ -78,6 +78,42 @@ def filter_profile(pid, r):
     return cfg, evs
 
 
+def c07_extreme_program(r, cfg):
+    """Enter a region, then leave it to coordinates whose repr uses exponent notation (>= 1e16 or
+    < 1e-4); tiny retractions inside.  The exit sequence and the recovery carry those numbers."""
+    from . import suites
+    regs = [g for g in cfg.get("regions", []) if g[0] == "R"]
+    if regs:
+        g = regs[0]
+        inside = ((g[2] + g[4]) / 2, (g[3] + g[5]) / 2)
+    else:
+        cfg["regions"] = list(cfg.get("regions", [])) + [("R", "x7", 10.0, 10.0, 20.0, 20.0)]
+        inside = (15.0, 15.0)
+
+    def extreme():
+        k = r.random()
+        if k < 0.45:
+            v = r.choice([1.2345678901234567e16, 9.87654321e17, 1e21, 2.5e16, 1.0000000000000002e16,
+                          r.uniform(1e16, 1e17), r.uniform(1e17, 1e22)])
+        elif k < 0.9:
+            v = r.choice([1.5e-5, 3.3e-7, 1e-9, 9.999e-5, r.uniform(1e-9, 9e-5)])
+        else:
+            v = suites.rand_double(r)
+        return v if r.random() < 0.5 else -v
+    evs = [("g", "G28"), ("g", "G1 X1 Y1 Z0.3 F3000"), ("g", "G1 X2 Y1 E1")]
+    if r.random() < 0.5:
+        evs.append(("g", "G1 E%r" % (1 - r.choice([1.0, 0.00001, 0.000012345]))))
+    evs.append(("g", "G1 X%r Y%r E2" % inside))
+    if r.random() < 0.5:
+        evs.append(("g", "G1 X%r Y%r E2.5" % (inside[0] + 0.5, inside[1])))
+    x, y = extreme(), extreme()
+    evs.append(("g", "G1 X%s Y%s%s" % (repr(x) if "e" not in repr(x) else "%.30f" % x if abs(x) < 1 else "%d" % x,
+                                       repr(y) if "e" not in repr(y) else "%.30f" % y if abs(y) < 1 else "%d" % y,
+                                       r.choice(["", " Z%s" % ("%.12f" % abs(extreme()) if r.random() < 0.5 else "5")]))))
+    evs.append(("g", "G1 X3 Y3 E3"))
+    return evs
+
+
 def search_filter(pid, r, n, stats):
     from . import oracle
     for _ in range(n):
@@ -90,6 +126,9 @@ def search_filter(pid, r, n, stats):
                 rad = math.hypot(a, b) / 2 * r.choice([1, 1, -1])
                 evs.append(("g", "G28 X Y"))
                 evs.append(("g", "%s X%r Y%r R%r" % (r.choice(["G2", "G3"]), a, b, rad)))
+        if pid == "C07" and r.random() < 0.3:
+            # tracked values far outside repr's plain range end up in the exit / recovery commands
+            evs = c07_extreme_program(r, cfg)
         res, _h = oracle.run_events(cfg, evs)
         v = [x for x in oracle.judge(cfg, evs, res, [pid])]
         stats["evaluations"] += 1
@@ -378,7 +417,7 @@ def search_c20(pid, r, n, stats):
 SEARCH = {"filter": search_filter, "plugin": search_plugin, "c12": search_c12, "c10": search_c10, "c08": search_c08,
           "c16": search_c16, "c17": search_c17, "c18": search_c18, "c19": search_c19, "c20": search_c20}
 
-ORACLE_N = {  # (quick when ties hold, search size when a tie is broken / thorough)
+ORACLE_N = {  # (quick when ties hold, search size when a tie is broken); thorough: 4 x the latter
     "filter": (150, 3000), "plugin": (60, 1200), "c12": (120, 3000), "c10": (40, 800), "c08": (25, 500), "c16": (150, 4000),
     "c17": (400, 20000), "c18": (500, 30000), "c19": (600, 30000), "c20": (80, 2500),
 }
@@ -521,7 +560,7 @@ def run_property(pid, tier, seed):
     stats = {"evaluations": 0, "skipped": 0, "nontrivial": set()}
     okind = P["oracle"]
     n_small, n_big = ORACLE_N[okind]
-    n = n_big if (broken or tier == "thorough") else n_small
+    n = 4 * n_big if tier == "thorough" else (n_big if broken else n_small)
     found = None
     r = random.Random(stable_seed(pid, seed, "oracle"))
     # (a) the mismatching cases themselves
